@@ -21,6 +21,9 @@ def build(tier):
     # a directory reachable under two names (symbolic link to a sibling, follow_symlinks on): independent of which name is listed first
     obs.append(trees.tree_ob("C17.a", "S2q" if quick else "S2", "symrel", dict(base, recursive=True, auto_ex=False, has_prefix=False), fixexcl=True, fixrev=True,
                              timeout=400 if quick else 2400, note=" (symbolic link to a sibling directory, links followed, two listing orders)"))
+    # the input path is a symbolic link to the tree: everything is named after the path as given, wherever the link points
+    obs.append(trees.tree_ob("C17.a", "S2q" if quick else "S2", "link", dict(base, recursive=True, auto_ex=False), fixexcl=True, fixrev=True,
+                             timeout=400 if quick else 2400, note=" (input path is a symbolic link to the tree)"))
     # C17.c / C12 lone file: title and module name do not depend on the absolute location (base name only)
     obs.append(trees.tree_ob("C17.c", "S3", "file", dict(ext_t=False, ext_m=False, excl_root=False, recursive=False, auto_ex=False, out_i=0),
                              fixrev=True, timeout=400 if quick else 2400, note=" (lone input file)"))
